@@ -59,13 +59,13 @@ def pairs_for(base, posset, alph):
             yield top, bot
 
 
-def real_ace(acex, platform: str):
+def real_ace(acex, platform: str, **cfg):
     """The library object for an abstract entry (members attached), cached per process."""
-    key = (platform, acex)
+    key = (platform, acex, tuple(sorted(cfg.items())))
     if key not in _ACE_CACHE:
         from cisco_acl import Ace
 
-        ace = Ace(acex.text(platform), platform=platform)
+        ace = Ace(acex.text(platform), platform=platform, **cfg)
         for side, adr in (("srcaddr", acex.src), ("dstaddr", acex.dst)):
             if adr.group:
                 getattr(ace, side).items = [m.spellings(platform)[0][0] for m in adr.members]
@@ -79,9 +79,12 @@ def rule_of(acex):
     return _RULE_CACHE[acex]
 
 
-def describe_pair(top, bot, platform):
-    return dict(platform=platform, top=top.text(platform), bottom=bot.text(platform),
-                top_members=_members(top, platform), bottom_members=_members(bot, platform))
+def describe_pair(top, bot, platform, **cfg):
+    d = dict(platform=platform, top=top.text(platform), bottom=bot.text(platform),
+             top_members=_members(top, platform), bottom_members=_members(bot, platform))
+    if cfg:
+        d["cfg"] = cfg
+    return d
 
 
 def _members(acex, platform):
@@ -98,7 +101,7 @@ def build_from_description(desc):
 
     res = []
     for which in ("top", "bottom"):
-        ace = Ace(desc[which], platform=desc["platform"])
+        ace = Ace(desc[which], platform=desc["platform"], **(desc.get("cfg") or {}))
         mem = desc.get(f"{which}_members") or {}
         if "src" in mem:
             ace.srcaddr.items = list(mem["src"])
